@@ -144,7 +144,33 @@ def _param_attr(ex, v, name):
             return concretize(SV(z3.simplify(S_at(v.t, 0)), STR))
         if name == "value":
             return concretize(SV(z3.simplify(z3.If(n >= 2, OSTR.some(S_at(v.t, 1)), OSTR.lift(None))), OSTR))
+        if name in ("serialize", "__str__"):
+            return Bound(v, None, name)
     return NotImplemented
+
+
+msd_text_raw = z3.Function("msd_text_without_escapes", CS, S)     # param.__str__(escapes=False)
+raw_ok = z3.Function("msd_serializable_without_escapes", CS, z3.BoolSort())
+
+
+def _param_method(ex, recv, name, args, kwargs):
+    if not (is_sym(recv) and recv.ty.kind == "param") or name not in ("serialize", "__str__"):
+        return NotImplemented
+    esc = kwargs.get("escapes", True)
+    e = ex.truthy(esc)
+    ex.assumptions_used.add("T-MSD-2: MSDParameter.serialize/__str__(escapes=False) writes a different text, or raises ValueError for components with special substrings")
+    if ex.branch(ex._z(e), "escapes"):
+        text = SV(msd_text(recv.t), STR)
+    else:
+        if not ex.branch(raw_ok(recv.t), "raw-ok"):
+            ex.raise_(ValueError, "can't be serialized without escapes", tag="unescapable")
+        text = SV(msd_text_raw(recv.t), STR)
+    if name == "__str__":
+        return text
+    return M.call_method(ex, args[0], "write", [text], {})
+
+
+M.METHOD_HOOKS.append(_param_method)
 
 
 _orig_sym_attr = M.sym_attr
